@@ -139,6 +139,12 @@ impl Session {
     ) -> Response {
         let bytes = rx.as_mut_for_read();
         if let Ok(encrypted_data) = EncryptedDataPayload::parse(bytes) {
+            // Uplink message types only ever travel from device to network. The MIC direction is
+            // taken from the MType, so without this check the device's own uplink coming back (a
+            // repeater, an echo, a recording sent again) would validate as an authentic downlink.
+            if encrypted_data.is_uplink() {
+                return Response::NoUpdate;
+            }
             {
                 // Drop oversized packets which exceed the maximum allowed
                 // transmission time defined by PHY layer.
